@@ -57,6 +57,10 @@ fn cases(thorough: bool) -> Vec<Case> {
     for len in 0..=60 {
         names.push(legal_string(len));
     }
+    // far beyond the limit (lengths around the u8 / u16 boundaries of the wire format's length fields)
+    for len in [64usize, 255, 256, 1000, 32767, 32768, 65535, 65536, 70000] {
+        names.push(legal_string(len));
+    }
     // ... with one illegal character at every position (thorough: every illegal symbol; quick: three of them per position, rotating)
     for len in 1..=60usize {
         for pos in 0..len {
@@ -227,12 +231,112 @@ async fn check_one(r: &Report, env: &Env, rank: usize, c: &Case) {
     }
 }
 
+const PROBE: &str = "INSERT INTO t (id) VALUES (";
+
+/// Other public ways to set the session keyspace: `SessionBuilder::use_keyspace` and raw `USE` statements through the
+/// unpaged / single-page / iterator entry points. Same oracle: invalid names cause no frame; afterwards every request
+/// arrives on a connection that acknowledged the keyspace a server resolves the name to (case-exact).
+async fn check_entry_points(r: &Report, env: &Env) {
+    env.cluster.script(mockcluster::Script::new(PROBE).prefix());
+    let mut n = 0u64;
+    // (a) builder
+    let names = ["ks_b", "MyKs", "_", "abcdefghijklmnopqrstuvwxyzABCDEFGHIJKLMNOPQRSTUV", "", "a b", "a;", "a\"", "abcdefghijklmnopqrstuvwxyzABCDEFGHIJKLMNOPQRSTUVW", "\u{e9}"];
+    for name in names {
+        for cs in [false, true] {
+            let case = json!({"leg": "names", "entry": "builder", "name": name, "case_sensitive": cs});
+            let from = env.cluster.log_len();
+            let built = SessionBuilder::new().known_node(env.cluster.contact_point(0)).use_keyspace(name, cs).build().await;
+            r.eval(1);
+            let valid = cqlref::ksname::is_valid(name);
+            match (&built, valid) {
+                (Err(_), false) => {
+                    let frames: Vec<String> = env.cluster.log_since(from).iter().filter(|e| relevant(e)).map(|e| e.describe()).collect();
+                    if !frames.is_empty() {
+                        r.violation("names:builder-frame-for-invalid-name", &format!("SessionBuilder::use_keyspace({name:?}, {cs}): frames were sent: {frames:?}"), case);
+                    }
+                    r.counters.add("builder_rejected", 1);
+                }
+                (Ok(_), false) => r.violation("names:builder-invalid-accepted", &format!("SessionBuilder::use_keyspace({name:?}, {cs}) built a session"), case),
+                (Err(e), true) => r.violation("names:builder-valid-rejected", &format!("SessionBuilder::use_keyspace({name:?}, {cs}) failed: {e}"), case),
+                (Ok(sess), true) => {
+                    let want_ks = cqlref::ksname::server_resolves_to(name, cs);
+                    let want_stmt = cqlref::ksname::use_statement(name, cs);
+                    let mark = env.cluster.log_len();
+                    for _ in 0..8 {
+                        let _ = sess.query_unpaged(format!("{PROBE}{n})"), ()).await;
+                        n += 1;
+                    }
+                    let uses: Vec<String> = env.cluster.log_since(from).iter().filter(|e| e.statement().map(mockcluster::is_use).unwrap_or(false)).map(|e| e.statement().unwrap().to_string()).collect();
+                    if uses.is_empty() || uses.iter().any(|u| *u != want_stmt) {
+                        r.violation("names:builder-statement-text", &format!("SessionBuilder::use_keyspace({name:?}, {cs}) must send {want_stmt:?}; sent {uses:?}"), case.clone());
+                    }
+                    for e in env.cluster.log_since(mark).iter().filter(|e| e.is_stmt(PROBE)) {
+                        if e.frame().unwrap().keyspace.as_deref() != Some(want_ks.as_str()) {
+                            r.violation("names:builder-request-in-wrong-keyspace", &format!("session built with use_keyspace({name:?}, {cs}): request arrived on a connection that acknowledged {:?}, expected {want_ks:?}", e.frame().unwrap().keyspace), case.clone());
+                        }
+                    }
+                    r.counters.add("builder_accepted", 1);
+                }
+            }
+        }
+    }
+    // (b) raw statements through every query entry point of a fresh session
+    for (how, text, want_ks) in [
+        ("query_unpaged", "USE \"MyKs\"", "MyKs"),
+        ("query_unpaged", "USE MyKs", "myks"),
+        ("query_single_page", "USE \"MyKs\"", "MyKs"),
+        ("query_single_page", "USE myks", "myks"),
+        ("query_iter", "USE \"MyKs\"", "MyKs"),
+        ("query_iter", "USE MyKs", "myks"),
+    ] {
+        let case = json!({"leg": "names", "entry": how, "statement": text});
+        let sess = SessionBuilder::new().known_node(env.cluster.contact_point(0)).build().await.unwrap_or_else(|e| vcore::machinery_error(&format!("session: {e}")));
+        env.cluster
+            .wait_conns("fresh session has its 2 pool connections", mockcluster::DEADLINE, |cs| (cs.iter().filter(|c| c.open && c.ready && c.registered.is_empty()).count() >= 4).then_some(()))
+            .await
+            .unwrap_or_else(|e| vcore::machinery_error(&e));
+        let ok = match how {
+            "query_unpaged" => sess.query_unpaged(text, ()).await.is_ok(),
+            "query_single_page" => sess.query_single_page(text, (), scylla::response::PagingState::start()).await.is_ok(),
+            _ => sess.query_iter(text, ()).await.is_ok(),
+        };
+        r.eval(1);
+        if !ok {
+            r.violation("names:raw-use-failed", &format!("{how}({text:?}) failed"), case.clone());
+            continue;
+        }
+        let mark = env.cluster.log_len();
+        for _ in 0..12 {
+            let _ = sess.query_unpaged(format!("{PROBE}{n})"), ()).await;
+            n += 1;
+        }
+        let mut conns = BTreeSet::new();
+        for e in env.cluster.log_since(mark).iter().filter(|e| e.is_stmt(PROBE)) {
+            conns.insert(e.conn);
+            if e.frame().unwrap().keyspace.as_deref() != Some(want_ks) {
+                r.violation("names:raw-use-request-in-wrong-keyspace", &format!("after {how}({text:?}) returned Ok a request arrived on a connection that acknowledged {:?}, expected {want_ks:?}", e.frame().unwrap().keyspace), case.clone());
+            }
+        }
+        r.counters.add("raw_use_entry_points_checked", 1);
+        r.counters.max("raw_use_connections_seen", conns.len() as u64);
+        // this session's connections go away (client closes), the shared one stays
+        drop(sess);
+        env.cluster
+            .wait_conns("fresh session's connections are closed", mockcluster::DEADLINE, |cs| (cs.iter().filter(|c| c.open && c.registered.is_empty()).count() <= 2).then_some(()))
+            .await
+            .unwrap_or_else(|e| vcore::machinery_error(&e));
+    }
+}
+
 fn run_partition(r: &Report, part: Vec<(usize, Case)>) {
     let rt = tokio::runtime::Builder::new_multi_thread().worker_threads(2).enable_all().build().unwrap();
     rt.block_on(async {
         let env = setup().await;
         for (rank, c) in &part {
             check_one(r, &env, *rank, c).await;
+        }
+        if part.first().map(|p| p.0) == Some(0) {
+            check_entry_points(r, &env).await;
         }
         // stragglers: a frame sent without waiting for its answer would show up late
         let from = env.cluster.log_len();
